@@ -195,6 +195,7 @@ class AxisSliceAllLengths(Contract):
     target = "glotaran.optimization.data_provider:DataProvider.get_axis_slice_from_interval"
     strength = "U"
     trusted = (
+        *__import__('contracts.unbounded', fromlist=['WP_ASSUMPTIONS']).WP_ASSUMPTIONS,
         "numpy contracts: `a - x` and np.abs elementwise; ndarray.argmin() = first index of a minimum (ValueError when empty); np.isinf; slice(a, b)",
         "extended reals: an infinite interval bound is the float +-inf (cases enumerated), a finite one a symbolic real; floats as reals",
     )
